@@ -370,12 +370,12 @@ func runRC(p *Plan, keep bool, mode string) *Outcome {
 			}
 			w.rc.Close()
 			for _, cn := range e.Conns {
-				cn.mu.Lock()
+				cn.lock()
 				if !cn.closed {
 					cn.closed = true
 					cn.signal()
 				}
-				cn.mu.Unlock()
+				cn.unlock()
 			}
 			for i := 0; i < 10; i++ {
 				time.Sleep(time.Minute)
@@ -473,12 +473,12 @@ func runRC(p *Plan, keep bool, mode string) *Outcome {
 		}
 		w.rc.Close()
 		for _, cn := range e.Conns {
-			cn.mu.Lock()
+			cn.lock()
 			if !cn.closed {
 				cn.closed = true
 				cn.signal()
 			}
-			cn.mu.Unlock()
+			cn.unlock()
 		}
 		for i := 0; i < 10; i++ {
 			time.Sleep(time.Minute)
